@@ -1018,6 +1018,7 @@ package dig
 //@   modifies @graphgrow
 //@   allocates
 //@   ensures[C10:group-parameter-is-a-slice,C14:group-parameter-is-a-slice] err == nil ==> pg.Type == f.Type && kind(pg.Type) == kSlice()
+//@   ensures[C14:a-rejected-group-parameter-adds-no-graph-node,C06:a-rejected-group-parameter-adds-no-graph-node] err != nil ==> unchangedAll()
 //@   ensures[C06:parsing-a-group-parameter-only-appends-graph-nodes] graphsOnlyGrow() && treeInv() && (forall m map[*Scope]int :: existed(m) ==> mapeq(m))
 
 //@ func newParamList(ctype, c) (pl, err)
@@ -1073,15 +1074,17 @@ package dig
 //@        && rg.Group != "" && rg.Type == t && rg.Flatten == g.Flatten && g.Name != ""
 //@   loop range opts.As #1: invariant (cap(asTypes) == 0 || fresh(asTypes)) && (forall j int :: 0 <= j && j < len(asTypes) ==> asTypes[j] != nil) && rg.Group != "" && rg.Type == t && rg.Flatten == g.Flatten && g.Name != ""
 
-//@ func newResultObject(t, opts) (ro, err)
+//@ func newResultObject(t, opts0) (ro, err)
 //@   requires t != nil
-//@   requires forall i int :: 0 <= i && i < len(opts.As) ==> opts.As[i] != nil && kind(typeOf(opts.As[i])) == kPtr() && kind(elem(typeOf(opts.As[i]))) == kInterface()
+//@   requires forall i int :: 0 <= i && i < len(opts0.As) ==> opts0.As[i] != nil && kind(typeOf(opts0.As[i])) == kPtr() && kind(elem(typeOf(opts0.As[i]))) == kInterface()
 //@   allocates plain
 //@   ensures[C15:result-object-keeps-its-struct-type] ro.Type == t
 //@   ensures[C15:result-object-fields-are-results] err == nil ==> (forall j int :: 0 <= j && j < len(ro.Fields) ==> okResult(ro.Fields[j].Result) && 0 <= ro.Fields[j].FieldIndex && ro.Fields[j].FieldIndex < numField(t))
 //@   loop for i < t.NumField() #1: invariant[C15:result-fields-so-far] 0 <= i && ro.Type == t && (cap(ro.Fields) == 0 || fresh(ro.Fields))
 //@        && (forall j int :: 0 <= j && j < len(ro.Fields) ==> okResult(ro.Fields[j].Result) && 0 <= ro.Fields[j].FieldIndex && ro.Fields[j].FieldIndex < numField(t))
 //@   site call dig.newResultObjectField #1: assert[C15:result-field-parsed-with-its-own-index] $arg0 == i
+//@   site call dig.newResultObjectField #1: assert[C15:every-field-is-parsed-with-the-constructors-own-options,C09:every-field-is-parsed-with-the-constructors-own-options] $arg2 == opts0
+//@   site call dig.newResultObjectField #1: assert[C15:every-field-is-parsed-from-its-own-declaration] $arg1 == ret(Field_1, 0)
 
 //@ func newResultObjectField(idx, f, opts) (rof, err)
 //@   requires f.Type != nil
@@ -1648,11 +1651,23 @@ package dig
 //@ pure func needy(S *Scope, p paramSingle) Bool = !p.Optional && (forall i int :: 0 <= i && i < S.nanc ==> len(S.anc[i].providers[vkey(p.Type, p.Name)]) == 0)
 //@     && !(vkey(p.Type, p.Name) in S.decoratedValues)
 
+// a parameter object one and two levels down (deeper levels follow by the same step: the clause for depth d is proved from the clause for depth d-1 at the recursive call)
+//@ pure func needyField(S *Scope, o paramObject, k Int) Bool = 0 <= k && k < len(o.Fields) && is(o.Fields[k].Param, paramSingle) && needy(S, as(o.Fields[k].Param, paramSingle))
+//@ pure func needyField2(S *Scope, o paramObject, k Int, m Int) Bool = 0 <= k && k < len(o.Fields) && is(o.Fields[k].Param, paramObject) && needyField(S, as(o.Fields[k].Param, paramObject), m)
 //@ func findMissingDependencies(c, params) (missing)
 //@   requires isScope(c) && (forall j int :: 0 <= j && j < len(params) ==> params[j] != nil)
 //@   allocates plain
 //@   ensures[C04:an-unsatisfiable-required-dependency-is-reported] (exists j int :: 0 <= j && j < len(params) && is(params[j], paramSingle) && needy(scopeOf(c), as(params[j], paramSingle))) ==> len(missing) > 0
 //@   ensures[C04:satisfiable-singles-are-not-reported,C17:satisfiable-singles-are-not-reported] (forall j int :: 0 <= j && j < len(params) ==> !is(params[j], paramObject) && !(is(params[j], paramSingle) && needy(scopeOf(c), as(params[j], paramSingle)))) ==> len(missing) == 0
+//@   ensures[C04:a-missing-field-of-a-parameter-object-is-reported,C15:a-missing-field-of-a-parameter-object-is-reported] (exists j int, k int :: 0 <= j && j < len(params) && is(params[j], paramObject) && needyField(scopeOf(c), as(params[j], paramObject), k)) ==> len(missing) > 0
+//@   ensures[C04:a-missing-field-of-a-nested-parameter-object-is-reported,C15:a-missing-field-of-a-nested-parameter-object-is-reported] (exists j int, k int, m int :: 0 <= j && j < len(params) && is(params[j], paramObject) && needyField2(scopeOf(c), as(params[j], paramObject), k, m)) ==> len(missing) > 0
+//@   loop range params #1: invariant[C04:object-fields-reported-so-far] (exists j int, k int :: 0 <= j && j < $i && is(params[j], paramObject) && needyField(scopeOf(c), as(params[j], paramObject), k)) ==> len(missingDeps) > 0
+//@   loop range params #1: invariant[C04:nested-object-fields-reported-so-far] (exists j int, k int, m int :: 0 <= j && j < $i && is(params[j], paramObject) && needyField2(scopeOf(c), as(params[j], paramObject), k, m)) ==> len(missingDeps) > 0
+//@   loop range p.Fields #1: invariant[C04:earlier-reports-stay-while-fields-are-examined] ((exists j int :: 0 <= j && j < $i1 && is(params[j], paramSingle) && needy(scopeOf(c), as(params[j], paramSingle))) ==> len(missingDeps) > 0)
+//@        && ((exists j int, k int :: 0 <= j && j < $i1 && is(params[j], paramObject) && needyField(scopeOf(c), as(params[j], paramObject), k)) ==> len(missingDeps) > 0)
+//@        && ((exists j int, k int, m int :: 0 <= j && j < $i1 && is(params[j], paramObject) && needyField2(scopeOf(c), as(params[j], paramObject), k, m)) ==> len(missingDeps) > 0)
+//@   loop range p.Fields #1: invariant[C04:fields-reported-so-far] ((exists k int :: k < $i && needyField(scopeOf(c), p, k)) ==> len(missingDeps) > 0) && ((exists k int, m int :: k < $i && needyField2(scopeOf(c), p, k, m)) ==> len(missingDeps) > 0)
+//@   loop range p.Fields #1: complete[C15:every-field-of-a-parameter-object-examined]
 //@   loop range params #1: complete[C04:every-parameter-examined]
 //@   loop range params #1: invariant[C04:reported-so-far] (exists j int :: 0 <= j && j < $i && is(params[j], paramSingle) && needy(scopeOf(c), as(params[j], paramSingle))) ==> len(missingDeps) > 0
 //@   loop range params #1: invariant[C04:not-reported-so-far] (forall j int :: 0 <= j && j < $i ==> !is(params[j], paramObject) && !(is(params[j], paramSingle) && needy(scopeOf(c), as(params[j], paramSingle)))) ==> len(missingDeps) == 0
